@@ -68,7 +68,8 @@ def agrees (p : Point K) (c : CPoint K) : Prop :=
   (∀ v, c.xy = some v → p.xy = some v) ∧ (∀ v, c.z = some v → p.z = some v)
 
 
-/-- invariants of a cluster; `gons` = the unit of the output, `s0` = sigma-apr, `ps` = the active points -/
+/-- invariants of a cluster; `gons` = the unit of the output, `ps` = the active points (`s0` = sigma-apr: needed until
+    9f04c51, when a `<dh>` with a distance had to carry the implied standard deviation; kept in the signature) -/
 def Cluster.WF (C : Codec K) (R Rd : K → Prop) (gons : Bool) (s0 : K) (ps : List (Point K)) : Cluster K → Prop
   | .obs sp cov =>
     (∀ o ∈ sp.obs, o.WF C.toNumFmt ∧ o.RepU C R Rd gons ∧ (o.kind = .direction → o.from_ = sp.station)) ∧
@@ -76,8 +77,7 @@ def Cluster.WF (C : Codec K) (R Rd : K → Prop) (gons : Bool) (s0 : K) (ps : Li
       (covOut C gons (flagOf (sp.obs.map (fun o => o.kind.angular))) c).WF R sp.obs.length)
   | .hdiffs dhs cov =>
     (∀ h ∈ dhs, h.from_ ≠ "" ∧ h.to ≠ "" ∧ (C.pos h.dist = false → h.dist = C.zero) ∧
-                (C.pos h.dist = true → h.stdev = C.sdDist s0 h.dist) ∧
-                (R h.val ∧ (C.pos h.dist = true → R h.dist) ∧ (C.pos h.dist = false → R h.stdev))) ∧
+                (R h.val ∧ (C.pos h.dist = true → R h.dist) ∧ R h.stdev)) ∧
     (∀ c, cov = some c → c.band ≠ 0 ∧ c.WF R dhs.length)
   | .coords _ pts cov =>
     (∀ c ∈ pts, c.WF R) ∧ cov.WF R (coordFlags pts).length ∧
